@@ -70,14 +70,32 @@ def f3_{k}(n: size, {xdecl}, y: f32[n + 4]):
 """
             out.append(Prog(f"f3_{k}", src, f"f3_{k}", "F3", (w, op, argkind)))
             k += 1
+    # rank-3 buffers: direct accesses, windows with points in every position, window arguments
+    for w, rank in [("x[1, 0:n, 2]", 1), ("x[0:2, 1, 0:3]", 2), ("x[1, 1, 0:3]", 1), ("x[0:2, 0:n, 1]", 2), ("x[1, 0:n, 0:3]", 2)]:
+        for argkind in ("tensor", "window"):
+            xdecl = "x: f32[2, n + 1, 3]" if argkind == "tensor" else "x: [f32][2, n + 1, 3]"
+            acc = "w[j]" if rank == 1 else "w[j, 1]"
+            src = f"""
+@proc
+def f3r_{k}(n: size, {xdecl}, y: f32[4]):
+    assert n >= 2
+    w = {w}
+    for j in seq(0, 2):
+        {acc} = y[j] + 3.0
+    for i in seq(0, n):
+        x[1, i, 2] += y[0]
+"""
+            out.append(Prog(f"f3r_{k}", src, f"f3r_{k}", "F3", (w, argkind)))
+            k += 1
     # window of window
-    for inner in ["w[1, 0:2]", "w[0:2, 1]", "w[1:3, 0:2]"]:
+    for outer, inner in [("x[1:5, 2:5]", "w[1, 0:2]"), ("x[1:5, 2:5]", "w[0:2, 1]"), ("x[1:5, 2:5]", "w[1:3, 0:2]"),
+                         ("x3[1, 1:5, 2:5]", "w[1, 0:2]"), ("x3[0:2, 2, 1:4]", "w[1, 0:2]"), ("x3[0:2, 1:5, 3]", "w[0:2, 1]")]:
         r = 1 if inner.count(":") == 1 else 2
         acc = "v[j]" if r == 1 else "v[j, 1]"
         src = f"""
 @proc
-def f3w_{k}(x: [f32][6, 5], y: f32[4]):
-    w = x[1:5, 2:5]
+def f3w_{k}(x: [f32][6, 5], x3: [f32][2, 6, 5], y: f32[4]):
+    w = {outer}
     v = {inner}
     for j in seq(0, 2):
         {acc} = y[j] + 2.0
@@ -227,6 +245,32 @@ def f11_2(N: size, n: size, x: f32[N, n], i: index):
     for j in seq(0, N):
         x[j, i] = 1.0
 """]
+    srcs += ["""
+@proc
+def f11_3(out: f32[3, 2, 3]):
+    for i_1 in seq(0, 3):
+        for i in seq(0, 2):
+            for i in seq(0, 3):
+                out[i_1, 0, i] += 1.0
+""", """
+@proc
+def f11_4(y: f32[4], x_1: f32, x: f32):
+    x_1 = 3.0
+    x = 1.0
+    for j in seq(0, 2):
+        x: f32
+        x = 5.0
+        y[j] = x_1 + x
+    y[3] = x
+""", """
+@proc
+def f11_5(y: f32[8]):
+    for i in seq(0, 2):
+        for i_1 in seq(0, 2):
+            for i in seq(0, 2):
+                for i in seq(0, 1):
+                    y[4 * i_1 + i] += 1.0
+"""]
     for k, s in enumerate(srcs):
         out.append(Prog(f"f11_{k}", s, f"f11_{k}", "F11", ()))
     return out
@@ -311,12 +355,12 @@ def fe_access(tier):
     k = 0
     idxs = ["i", "i + 1", "i - 1", "n - 1 - i", "n - i", "2 * i", "i / 2", "(i - 1) % 2", "i + k"]
     bounds = [("0", "n"), ("1", "n"), ("0", "n - 1"), ("0", "n + 1")]
-    guards = ["", "i + 1 < n", "i > 0", "i <= n"]
+    guards = ["", "i + 1 < n", "i > 0", "i <= n", "ELSE:i + 1 >= n", "ELSE:i < 1", "ELSE:i + 1 < n", "ELSE:i > n - 1", "ELSE:i > n - 2", "ELSE:i >= n - 1"]
     vias = ["direct", "window", "wow", "callee_win", "callee_tensor"]
     ops = ["write", "read", "reduce"]
     if tier == "quick":
         idxs = ["i", "i + 1", "i - 1", "n - i", "2 * i", "(i - 1) % 2", "i + k"]
-        guards = ["", "i + 1 < n", "i > 0"]
+        guards = ["", "i + 1 < n", "i > 0", "ELSE:i + 1 >= n", "ELSE:i < 1", "ELSE:i > n - 1", "ELSE:i > n - 2"]
         ops = ["write", "read"]
     for ix, (lo, hi), g, via, op in itertools.product(idxs, bounds, guards, vias, ops):
         if via in ("callee_win", "callee_tensor") and (g or op == "reduce"):
@@ -344,7 +388,9 @@ def fe_cal_{k}(m: size, j: index, d: {ptype}, o: f32[1]):
 """
             stmt = f"fe_cal_{k}(n, {ix}, x, y)"
         body = stmt
-        if g:
+        if g.startswith("ELSE:"):
+            body = f"if {g[5:]}:\n            pass\n        else:\n            {stmt}"
+        elif g:
             body = f"if {g}:\n            {stmt}"
         prel = "".join(f"    {p}\n" for p in pre)
         src = callee + f"""
@@ -431,7 +477,8 @@ def fc_{k}(n: size, x: f32[n + 1], z: f32[2, n]):
 """
         out.append(Prog(f"fc_{k}", src, f"fc_{k}", "FE3", (tag,)))
         k += 1
-    alias = ["f2(x, x)", "f2(x[0:2], x[2:4])", "f2(x[0:3], x[2:4])", "f2(x[0:2], x[1:3])", "f2(w, x[0:2])", "f2(w, x[2:4])", "f2(x[0:2], y[0:2])"]
+    alias = ["f2(x, x)", "f2(x[0:2], x[2:4])", "f2(x[0:3], x[2:4])", "f2(x[0:2], x[1:3])", "f2(w, x[0:2])", "f2(w, x[2:4])", "f2(x[0:2], y[0:2])",
+             "f2(v, x[1:3])", "f2(v, x[2:4])", "f2(v, w)", "f2(v, w3[0:2])", "f2(v, y[0:2])"]
     for call in alias:
         src = f"""
 @proc
@@ -441,6 +488,8 @@ def f2(a: [f32][2], b: [f32][2]):
 @proc
 def fc_{k}(x: f32[4], y: f32[4]):
     w = x[0:2]
+    w3 = x[0:4]
+    v = w3[0:2]
     {call}
 """
         if call == "f2(x, x)":
